@@ -193,7 +193,7 @@ theorem validation_mode_pinned_violates :
       { ops := C15E.Toy.intOpsMode, lrAt := fun _ => 1, cfg := { k := 1 }, batch := fun _ => 1,
         init := ⟨(true, 0), (), 0, 0, ()⟩, total := 12, ckSteps := 3, encode := fun _ => [], decode := fun _ => none }
     let run (v : VCfg (Bool × Int)) (stop : Stop) (start : Nat) (s : St (Bool × Int) Unit Int Unit) :=
-      (vloop r v stop start false 12 start { s with theta := v.enter s.theta } Dir.empty []).1
+      (vloop r v stop none start false 12 start { s with theta := v.enter s.theta } Dir.empty []).1
     let resumed (v : VCfg (Bool × Int)) :=
       run v .finish 10 (restore 0 (snapshot (run v (.vanishAfter 9) 0 r.init)))
     (run (C15E.Toy.intVPinned 4) .finish 0 r.init).theta = (false, -21) ∧
@@ -208,7 +208,7 @@ theorem validation_mode_pinned_violates :
 the schedule of every iteration from `start_iter` on -/
 theorem finished_process_events (r : Run P O G B L Sc) (v : VCfg P) (start : Nat) (swv : Bool)
     (s : St P O G Sc) (d : Dir) :
-    (vloop r v .finish start swv r.total start s d []).2.2 =
+    (vloop r v .finish none start swv r.total start s d []).2.2 =
       (if swv = true ∧ start < r.total then [Event.validate start] else [])
         ++ schedule r.ckSteps v.valSteps r.total start (r.total - start) := by
   have := vloop_finish_events r v start swv r.total start s d [] (Nat.le_refl _) (by omega)
@@ -234,7 +234,7 @@ theorem final_iteration_bookkeeping (ck vs total : Nat) (h : 6 ≤ total) :
 /-- **resuming a finished run does nothing**: 'latest' = `num_iterations − 1` gives `start_iter = num_iterations`; the
 loop body is not entered — no iteration, no save, no validation (not even with `start_with_validation`) -/
 theorem resume_finished_run_does_nothing (r : Run P O G B L Sc) (v : VCfg P) (stop : Stop) (swv : Bool)
-    (s : St P O G Sc) (d : Dir) : vloop r v stop r.total swv r.total r.total s d [] = (s, d, []) := by
+    (s : St P O G Sc) (d : Dir) (die : Option Die) : vloop r v stop die r.total swv r.total r.total s d [] = (s, d, []) := by
   cases h : r.total with
   | zero => rfl
   | succ n => rw [vloop, if_pos (by omega)]
@@ -554,5 +554,76 @@ theorem prune_before_pointer_violates :
   decide
 
 example : wfSaveX (saveTable ++ [.prune]) = true ∧ ((7 : Nat) : Int) ∉ ([5, 6] : List Int) := by decide
+
+/-! ## the second failure mode of a save: an exception raised inside a write (Python unwinds) -/
+
+/-- **Exception safety of a save**: for every table whose core is well formed (`wfSave`) and whose exceptional path only
+closes files (`wfUnwind`: no rename, no write, no deletion while an exception unwinds), any directory, label, chunking:
+if the write that is operation `n` raises after `m` bytes — the enclosing `with` / `finally` clean-up runs, then the
+exception leaves `save` — `load('latest')` gives what it gave before the save or the new checkpoint.  (Process death at
+the same point: `crash_safe_all_wf_tables`.) -/
+theorem exception_safe {S} (decode : Bytes → Option S) (xt : List XStmt) (hwf : wfSave (xt.map (·.stmt)) = true)
+    (hun : wfUnwind xt = true) (d : Dir) (it : Nat) (chunks : List Bytes) (s : S)
+    (hdec : decode chunks.flatten = some s) (n m : Nat) :
+    let d' := run d (excOps xt it chunks n m)
+    loadLatest decode d' = loadLatest decode d ∨ loadLatest decode d' = .ok it s := by
+  show loadLatest decode (run d (excOps xt it chunks n m)) = _ ∨
+    loadLatest decode (run d (excOps xt it chunks n m)) = _
+  rw [run_excOps xt hun d it chunks n m]
+  exact crash_safe_of_wf decode _ hwf d it chunks s hdec _ (crashAt_crashOf _ n (some m))
+
+/-- the table as it is now (two `with open(tmp)` blocks: unwinding only closes the temporary) satisfies both predicates;
+a context manager that closes **and renames** in a `finally` does not -/
+theorem unwind_tables :
+    wfUnwind saveTableX = true ∧ saveTableX.map (·.stmt) = saveTable ∧
+    wfUnwind [⟨.openW .modelTmp, none⟩, ⟨.writePayload .modelTmp, none⟩, ⟨.closeF .modelTmp, some 1⟩,
+              ⟨.replace .modelTmp .model, some 1⟩, ⟨.openW .lastTmp, none⟩, ⟨.writeLabel .lastTmp, none⟩,
+              ⟨.closeF .lastTmp, some 5⟩, ⟨.replace .lastTmp .last, some 5⟩] = false := by
+  decide
+
+/-- **renaming on the exceptional path is not safe** (`finally: f.close(); os.replace(tmp, path)`): after a complete save
+of label 5, a second save of label 5 (kill path after the periodic checkpoint of the same iteration) whose first payload
+write raises after one byte renames the truncated temporary over the only good `model_5.pt`: `load('latest')` fails —
+while the same exception under the table as it is now leaves the old checkpoint in place -/
+theorem rename_on_unwind_violates :
+    let bad : List XStmt :=
+      [⟨.openW .modelTmp, none⟩, ⟨.writePayload .modelTmp, none⟩, ⟨.closeF .modelTmp, some 1⟩,
+       ⟨.replace .modelTmp .model, some 1⟩, ⟨.openW .lastTmp, none⟩, ⟨.writeLabel .lastTmp, none⟩,
+       ⟨.closeF .lastTmp, some 5⟩, ⟨.replace .lastTmp .last, some 5⟩]
+    let d := run Dir.empty (saveOps 5 (chunk (toyEncode 1 10) [3, 4]))
+    loadLatest toyDecode d = .ok 5 1 ∧
+    loadLatest toyDecode (run d (excOps bad 5 (chunk (toyEncode 2 10) [3, 4]) 1 1)) = .error .corrupt ∧
+    loadLatest toyDecode (run d (excOps saveTableX 5 (chunk (toyEncode 2 10) [3, 4]) 1 1)) = .ok 5 1 := by
+  decide
+
+/-! ## deaths at statement boundaries outside the kill path; what may be inside the kill path's `try` -/
+
+/-- **a process that dies at any statement boundary of an iteration outside the kill path** (signal after `_do_iteration`
+returned: during the optimiser step, after it, around `lr_scheduler.step()`, at the entry of the periodic save, inside
+`write_to_logs`) **keeps the directory invariant**: nothing is saved on the way out, so 'latest' is still absent or the
+uninterrupted run's state after its label — the next resume is on the uninterrupted trajectory
+(`interrupted_history_with_validation`) -/
+theorem death_outside_kill_path_keeps_invariant (r : Run P O G B L Sc) (hr : r.Ok) (v : VCfg P) (hv : v.Ok r)
+    (stop : Stop) (x : Die) (hx : x.wf r) (start : Nat) (swv : Bool) (it : Nat) (d : Dir) (hd : r.Inv d) :
+    r.Inv (vloop r v stop (some x) start swv r.total it (r.U it) d []).2.1 :=
+  vloop_inv v r hv hr stop (some x) (fun y hy => by cases hy; exact hx) start swv r.total it d [] hd
+
+/-- **why only `_do_iteration` may be inside the `try` that routes to the kill path**: the kill path stores the current
+state under `iter_idx − 1`.  If the optimiser step were inside that `try` and the signal arrived right after it, the
+checkpoint labelled 6 would already contain iteration 7's update; the resumed process (starting at 7) applies it again:
+`θ = −53` instead of `−45` (integer toy, lr `= last_epoch + 1`, gradients 1) -/
+theorem kill_path_after_step_violates :
+    let cfg : Cfg := { k := 1 }
+    let lrAt : Nat → Int := fun e => e + 1
+    let batch : Nat → Int := fun _ => 1
+    let init : St Int Unit Int Unit := ⟨0, (), 0, 0, ()⟩
+    let U := runRange Toy.intOps lrAt cfg batch init 0
+    -- iteration 7 interrupted after `optimizer.step()` (4 statements of the loop table), saved by the kill path
+    let part := iterT (loopTable.take 4) Toy.intOps lrAt cfg (U 7) 7 (batch 7)
+    let start := (resumeStart (killLabel 7)).toNat
+    wfTry tryEvents = true ∧ wfTry [.backward, .divGrad, .clip, .optStep, .scalerUpdate, .zeroGrad] = false ∧
+    (runRange Toy.intOps lrAt cfg batch (restore 0 (snapshot part)) start (9 - start)).theta = -53 ∧
+    (U 9).theta = -45 := by
+  decide
 
 end DirectVerif.C15
